@@ -78,6 +78,22 @@ def case_direct(case, res):
             da_finalize(ks)
             if abs(float(ks.step_size) - np.exp(st["lavg"])) > 2e-5 * np.exp(st["lavg"]) * (1 + abs(st["lavg"])):
                 res.violation("da-finalize", f"da_finalize: step {float(ks.step_size)} != exp(log_avg) {np.exp(st['lavg'])}", {})
+    # acceptance sequences whose errors cancel exactly (error_sum == 0 at the end of the epoch): the averaged
+    # step size must still be installed by da_finalize
+    for target, pattern in ((0.25, [1.0, 0.0, 0.0, 0.0]), (0.5, [1.0, 0.0]), (0.5, [0.0, 1.0, 1.0, 0.0]), (0.75, [1.0, 1.0, 1.0, 0.0])):
+        ks = S()
+        step0 = float(np.float32(np.exp(rng.uniform(-1, 1))))
+        ks.step_size = jnp.asarray(step0, jnp.float32)
+        da_init(ks)
+        st = ref_init(step0)
+        for i, a in enumerate(pattern):
+            da_step(ks, jnp.asarray(a, jnp.float32), i, target, 0.05, 0.75, 10)
+            st = ref_step(st, a, i, target, 0.05, 0.75, 10)
+        da_finalize(ks)
+        res.mon("direct_recurrence")
+        if abs(float(ks.step_size) - np.exp(st["lavg"])) > 3e-5 * np.exp(st["lavg"]) * (1 + abs(st["lavg"])):
+            res.violation("da-finalize", f"acceptances {pattern} with target {target} (errors cancel: error_sum={float(ks.error_sum)}): "
+                          f"da_finalize left step {float(ks.step_size)}, averaged step is {np.exp(st['lavg'])}", {"pattern": pattern})
     # monotonicity: vectorised over random states
     n = case["n_mono"]
     ks1, ks2 = S(), S()
@@ -92,7 +108,8 @@ def case_direct(case, res):
     a1 = rng.uniform(0, 1, n).astype(np.float32)
     a2 = np.minimum(1.0, a1 + rng.uniform(0, 1, n).astype(np.float32) * (1 - a1) + 1e-3).astype(np.float32)
     tie = int(rng.integers(0, 200))
-    tg, gm, kp, t0 = float(rng.uniform(0.2, 0.9)), float(rng.choice([0.05, 0.5])), 0.75, int(rng.choice([1, 10]))
+    # incl. extreme constants for which exp() over/underflows: monotone in the extended sense (0 <= x <= inf)
+    tg, gm, kp, t0 = float(rng.uniform(0.2, 0.9)), float(rng.choice([0.001, 0.05, 0.5])), 0.75, int(rng.choice([1, 5, 10]))
     da_step(ks1, jnp.asarray(a1), tie, tg, gm, kp, t0)
     da_step(ks2, jnp.asarray(a2), tie, tg, gm, kp, t0)
     s1, s2 = np.asarray(ks1.step_size), np.asarray(ks2.step_size)
